@@ -53,6 +53,13 @@ def parseCEv (t : String) : Option CEv :=
   | ["e", p] => some (.fin (intD p))
   | _ => none
 
+def parseNEv (t : String) : Option NEv :=
+  match t.splitOn ":" with
+  | ["n", l, a, b, c] => some (.visit (intD l) (intD a) (natD b) (natD c))
+  | ["x", l, a, b] => some (.other (intD l) (intD a) (natD b))
+  | ["i", b, _] => some (.init (natD b))
+  | _ => none
+
 def parseTab (ts : List String) : Tab :=
   if ts.contains "none" then { psize := natD ((kv? ts "psize").getD "0"), noInfo := true } else
   { psize := natD ((kv? ts "psize").getD "0"),
@@ -186,6 +193,7 @@ structure MState where
   world : World := {}
   machine : Option (Machine × String × String) := none   -- machine, caught, err
   counts : List (Int × Int) := []                        -- num_arg / num_local per control stack element
+  nvs : List (String × List NEv) := []                   -- node visits per program
   out : List String := []
 
 def parseCsEntry (t : String) : Option CsEntry :=
@@ -216,6 +224,15 @@ def modelLine (st : MState) (line : String) : MState :=
   match toks line with
   | "ev" :: p :: ts =>
     { st with evs := setAssoc st.evs p (ts.filterMap parseCEv), out := line :: st.out }
+  | "nv" :: p :: ts =>
+    { st with nvs := setAssoc st.nvs p (ts.filterMap parseNEv), out := line :: st.out }
+  | "sw" :: p :: _ =>
+    match st.nvs.find? (fun e => e.1 == p) with
+    | some e =>
+      let calls := (nodeRun e.2).2.reverse                       -- MODEL i_generate_node on the visited nodes
+      let body := if calls.isEmpty then "-" else " ".intercalate (calls.map fun c => s!"{c.1}:{c.2.1}:{c.2.2}")
+      { st with out := s!"sw {p} {body}" :: st.out }
+    | none => { st with out := s!"sw {p} !nonv" :: st.out }
   | "fn" :: p :: ns :: _ =>
     let names := if ns == "-" then [] else ns.splitOn ","
     { st with world := { st.world with fns := setAssoc st.world.fns p names }, out := line :: st.out }
